@@ -254,7 +254,7 @@ def c15(ctx):
     RA.rule_attr_type(ctx)
     ctx.floor("guard-first", 20)
     ctx.floor("guard-set", 18 + 5)
-    ctx.floor("guard-order", 3)
+    ctx.floor("guard-order", 2)
     ctx.floor("ctor-attr", 18)
 
 
